@@ -5,6 +5,9 @@ CONSTANTS Flows = {1, 2}
           InitRules <- Rules_oo
           RuleSets <- NoRuleSets
           Reloads = FALSE
+          Cfgs <- NoCfgs
+          InitCfg = 0
+          EffOf <- EffNone
           VerMod = 4
           Gaps = {1, 3}
           MaxItems = 3
